@@ -414,8 +414,12 @@ impl NotificationProtocol {
                     .await;
             }
             // substream fully open, report that the notification stream is closed
+            //
+            // the connection handler reports it as well once the substreams are closed but that
+            // can take a while and a new stream to the peer may have been opened by then
             PeerState::Open { shutdown } => {
                 let _ = shutdown.send(());
+                self.event_handle.report_notification_stream_closed(peer, None).await;
             }
             // if the substream was being validated, user must be notified that the substream is
             // now considered rejected if they had been made aware of the existence of the pending
@@ -1075,6 +1079,10 @@ impl NotificationProtocol {
                 let _ = shutdown.send(());
 
                 context.state = PeerState::Closed { pending_open: None };
+
+                // the stream must be reported closed before anything else is reported for the
+                // peer, the connection handler may take a while to close the substreams
+                self.event_handle.report_notification_stream_closed(peer, None).await;
             }
             state => {
                 tracing::debug!(
@@ -1652,6 +1660,12 @@ impl NotificationProtocol {
                                     "notification stream to peer closed",
                                 );
                                 context.state = PeerState::Closed { pending_open: None };
+
+                                // the notice may come from the handler of an earlier stream
+                                // while the handler of this one is still closing its substreams
+                                self.event_handle
+                                    .report_notification_stream_closed(peer, None)
+                                    .await;
                             }
                         }
                     }
